@@ -572,4 +572,42 @@ theorem extremalOk_sound (p : ℤ) (hp : p ≠ 0)
       (latContains_iff_val p O t d hzt.1.1.1.2 n).1 ct, a, b, c, hq⟩
   · simp at h
 
+/-- `quat_alg_make_primitive` on an element of the order: `x = content · (primitive part)` -/
+theorem makePrimitive_val (p : ℤ) (O : Lattice) (x : Elem) (hO : O.denom ≠ 0) (hx : x.denom ≠ 0)
+    (h : (latContains O x).1 = true) :
+    val p x = ((makePrimitive O x).2 : ℤ) • val p ⟨O.denom, O.basis.eval (makePrimitive O x).1⟩ := by
+  have hs := latContains_sound O x h
+  unfold makePrimitive
+  simp only []
+  set c := (latContains O x).2 with hc
+  obtain ⟨d0, d1, d2, d3⟩ := SqiProofs.QuatAlg.content_dvd c
+  have q0 := Int.tdiv_mul_cancel d0
+  have q1 := Int.tdiv_mul_cancel d1
+  have q2 := Int.tdiv_mul_cancel d2
+  have q3 := Int.tdiv_mul_cancel d3
+  set g := c.content
+  unfold CoordsOf at hs
+  obtain ⟨Od, ⟨⟨a00, a01, a02, a03⟩, ⟨a10, a11, a12, a13⟩, ⟨a20, a21, a22, a23⟩, ⟨a30, a31, a32, a33⟩⟩⟩ := O
+  obtain ⟨xd, ⟨x0, x1, x2, x3⟩⟩ := x
+  obtain ⟨c0, c1, c2, c3⟩ := c
+  simp only [Vec4.map, Mat4.eval, Vec4.ofFn, Mat4.get, Mat4.row, Vec4.get, Vec4.mk.injEq] at hs q0 q1 q2 q3 ⊢
+  obtain ⟨s0, s1, s2, s3⟩ := hs
+  have hOq : (Od : ℚ) ≠ 0 := by exact_mod_cast hO
+  have hxq : (xd : ℚ) ≠ 0 := by exact_mod_cast hx
+  have s0' : (x0 : ℚ) * Od = (a00 * c0 + a01 * c1 + a02 * c2 + a03 * c3) * xd := by exact_mod_cast s0
+  have s1' : (x1 : ℚ) * Od = (a10 * c0 + a11 * c1 + a12 * c2 + a13 * c3) * xd := by exact_mod_cast s1
+  have s2' : (x2 : ℚ) * Od = (a20 * c0 + a21 * c1 + a22 * c2 + a23 * c3) * xd := by exact_mod_cast s2
+  have s3' : (x3 : ℚ) * Od = (a30 * c0 + a31 * c1 + a32 * c2 + a33 * c3) * xd := by exact_mod_cast s3
+  have r0 : (c0 : ℚ) = (Int.tdiv c0 g : ℤ) * g := by exact_mod_cast q0.symm
+  have r1 : (c1 : ℚ) = (Int.tdiv c1 g : ℤ) * g := by exact_mod_cast q1.symm
+  have r2 : (c2 : ℚ) = (Int.tdiv c2 g : ℤ) * g := by exact_mod_cast q2.symm
+  have r3 : (c3 : ℚ) = (Int.tdiv c3 g : ℤ) * g := by exact_mod_cast q3.symm
+  apply QuaternionAlgebra.ext
+  all_goals simp [val]
+  all_goals rw [div_eq_iff hxq]
+  · rw [r0, r1, r2, r3] at s0'; field_simp; linear_combination s0'
+  · rw [r0, r1, r2, r3] at s1'; field_simp; linear_combination s1'
+  · rw [r0, r1, r2, r3] at s2'; field_simp; linear_combination s2'
+  · rw [r0, r1, r2, r3] at s3'; field_simp; linear_combination s3'
+
 end SqiProofs.Ideal
